@@ -797,7 +797,46 @@ class LayoutEval:
                 return True
         return False
 
+    def is_reader_class(self, mod, cls, _depth=0):
+        """a class of the package derived from construct.Construct (not through Adapter / Subconstruct) that reads its field itself"""
+        if self.is_adapter_class(mod, cls):
+            return False
+        for b in cls.bases:
+            r = self.repo.resolve_expr(mod, b)
+            if r.kind == "external" and r.fq in ("construct.Construct", "construct.core.Construct"):
+                return self.find_method(mod, cls, "_parse") is not None
+            if r.kind == "class" and _depth < 5 and self.is_reader_class(r.mod, r.node, _depth + 1):
+                return True
+        return False
+
+    def instantiate_reader(self, mod, cls, args, kwargs, node):
+        """a reader class (its own ``_parse`` on the stream): which constructor argument is the number of bytes it consumes is found
+        by evaluating ``_parse`` (the checker's interpreter) on model streams with that argument set to 0, 1 and 5, as a number and as
+        a context function: the read sizes must follow it.  The field is then described as that class decoding Bytes(<argument>):
+        decode(field bytes) = ``_parse`` on a stream holding exactly these bytes (vlib/props/adapter_eval.py)"""
+        found = self.find_method(mod, cls, "__init__")
+        if found is None:
+            raise AnalysisError(f"{cls.name}: a reader class without __init__; its width is not decided")
+        init = found[0]
+        a = init.args
+        pos = [x.arg for x in a.posonlyargs + a.args][1:]
+        bound = dict(zip(pos, args))
+        for k, v in kwargs.items():
+            if k not in pos and k not in [x.arg for x in a.kwonlyargs]:
+                raise AnalysisError(f"unexpected keyword {k} for {cls.name}")
+            bound[k] = v
+        width_param = reader_width_param(self.repo, mod, cls, pos, bound)
+        if width_param is None:
+            raise AnalysisError(f"{cls.name}: no constructor argument of this reader class is followed by the sizes of its reads; its width is not decided")
+        if width_param not in bound:
+            raise AnalysisError(f"{cls.name}(...): the width argument {width_param} is not given")
+        attrs = {k: v for k, v in bound.items() if k != width_param}
+        attrs["__width_param__"] = width_param
+        return Con("adapter", cls=cls.name, clsmod=mod.name, clsnode=cls, sub=Con("bytes", size=self.lazy_num(bound[width_param])), attrs=attrs, node=node)
+
     def instantiate(self, mod, cls, args, kwargs, node):
+        if self.is_reader_class(mod, cls):
+            return self.instantiate_reader(mod, cls, args, kwargs, node)
         if not self.is_adapter_class(mod, cls):
             raise AnalysisError(f"{cls.name} is not a construct.Adapter subclass")
         classattrs = {}
@@ -1030,9 +1069,68 @@ def _strip(path):
     return tuple(p for p in path if p != "<sizeof>")
 
 
+_READER_WIDTH = {}
+
+
+def reader_parse(I, mod, cls, ctor_kwargs, content):
+    """``cls(**ctor_kwargs)._parse(stream over content, context, path)`` in the interpreter
+    -> (outcome 'returned' | 'raised', value / _Raise, sizes asked of the stream, bytes consumed)"""
+    from collections import OrderedDict
+    from .shapes import Const, Fn, Obj, _Raise
+    from .tracemodel import Trace, model_file
+    ctor = Fn("classctor", cls=cls, mod=mod, name=cls.name)
+    trace = Trace()
+    f = model_file(trace, len(content), content)
+    ctx = Obj("Context", OrderedDict(_=Obj("Context", OrderedDict()), _params=Obj("Context", OrderedDict())))
+    try:
+        inst = I.call(ctor, [], OrderedDict(ctor_kwargs))
+        out = I.call(I.getattr(inst, "_parse"), [f, ctx, Const("(parsing) -> field")], {})
+        st = "returned"
+    except _Raise as e:
+        out, st = e, "raised"
+    reads = [e_[2] for e_ in trace.events if e_[0] == "read"]
+    consumed = sum(e_[3] for e_ in trace.events if e_[0] == "read")
+    return st, out, reads, consumed
+
+
+def reader_width_param(repo, mod, cls, pos, bound):
+    """the constructor parameter whose value is the number of bytes `_parse` reads (behaviourally: the reads follow it)"""
+    key = (mod.name, cls.name)
+    if key in _READER_WIDTH:
+        return _READER_WIDTH[key]
+    from collections import OrderedDict
+    from .shapes import Const, Fn, Interp, NonTermination, ShapeError
+    result = None
+    for p in pos:
+        ok = True
+        for k in (0, 1, 5):
+            for as_function in (False, True):
+                I = Interp(repo)
+                val = Const(k) if not as_function else Fn("py", impl=lambda I_, a, kw, k=k: Const(k), name="<context function>")
+                try:
+                    others = OrderedDict((q, Const(v)) for q, v in bound.items() if q != p and isinstance(v, (int, float, str, bool, bytes, type(None))))
+                    others[p] = val
+                    st, out, reads, consumed = reader_parse(I, mod, cls, others, bytes(range(65, 65 + k + 3)))
+                except (ShapeError, NonTermination, RecursionError):
+                    ok = False
+                    break
+                if not reads or sum(r for r in reads if isinstance(r, int)) != k:
+                    ok = False
+                    break
+            if not ok:
+                break
+        if ok:
+            result = p
+            break
+    _READER_WIDTH[key] = result
+    return result
+
+
 def _plain_attrs(attrs):
     out = {}
     for k, v in attrs.items():
+        if k.startswith("__"):
+            continue  # bookkeeping of the evaluator (which constructor argument is the width of a reader class)
         if isinstance(v, (int, float, str, bool, type(None))):
             out[k] = v
         elif isinstance(v, dict):
